@@ -1,0 +1,28 @@
+#ifndef NMTOOLS_VERIF_HOOKS_HPP
+#define NMTOOLS_VERIF_HOOKS_HPP
+
+// Verification hooks. Only included / used when NMTOOLS_VERIF is defined.
+// The harness provides the event sink:
+//   extern "C" void nmtools_verif_event(int kind, long a, long b);
+// Event kinds:
+//   1 utl::array index >= N                      (a=index, b=N)
+//   2 utl::static_vector index >= Capacity       (a=index, b=Capacity)
+//   3 utl::vector index >= size()                (a=index, b=size)
+//   4 utl::static_vector resize/push_back beyond Capacity, silently ignored (a=requested, b=Capacity)
+//   5 clipped_integer_t clamped a value          (a=value, b=bound)
+//   6 evaluator returned early: output shape differs from view shape
+//   7 ndarray element access: index >= extent    (a=index, b=extent)
+//   8 ndarray element access: offset >= buffer length (a=offset, b=length)
+//   9 utl::static_vector index in [size(), Capacity) (informational) (a=index, b=size)
+
+#ifdef NMTOOLS_VERIF
+
+extern "C" void nmtools_verif_event(int kind, long a, long b);
+
+// never fires during constant evaluation (the sink is not constexpr)
+#define NMTOOLS_VERIF_CHECK(cond,kind,a,b) \
+    do { if (!__builtin_is_constant_evaluated()) { if (cond) { ::nmtools_verif_event((kind),(long)(a),(long)(b)); } } } while (0)
+
+#endif // NMTOOLS_VERIF
+
+#endif // NMTOOLS_VERIF_HOOKS_HPP
